@@ -17,6 +17,7 @@ mod engines {
 	pub mod tomlorder;
 	pub mod msgpack;
 	pub mod stream;
+	pub mod bridge;
 }
 mod props {
 	pub mod c01;
@@ -80,6 +81,8 @@ fn real_main() {
 				engines::msgpack::run_decode(&mut out, &mut rng.fork(), thorough);
 				engines::transcode::run(&mut out, &mut rng.fork(), thorough);
 				engines::tomlorder::run(&mut out, &mut rng.fork(), thorough);
+				// JSON <-> MessagePack end to end against the composed model (fidelity theorems).
+				engines::bridge::run(&mut out, &mut rng.fork(), thorough);
 				props::c01::run(&mut out, &mut rng.fork(), thorough);
 			}
 			"C02" => {
@@ -105,6 +108,8 @@ fn real_main() {
 				engines::msgpack::run_decode(&mut out, &mut rng.fork(), thorough);
 				engines::json::run(&mut out, &mut rng.fork(), thorough);
 				engines::tomlorder::run(&mut out, &mut rng.fork(), thorough);
+				// `roundtrip_j_m_j`: the composed JSON <-> MessagePack model.
+				engines::bridge::run(&mut out, &mut rng.fork(), thorough);
 				props::c06::run(&mut out, &mut rng.fork(), thorough);
 			}
 			"C10" => {
@@ -150,6 +155,10 @@ fn real_main() {
 			// Development entry for the JSON model slice (not a property id).
 			"JSONDEV" => {
 				engines::json::run(&mut out, &mut rng.fork(), thorough);
+			}
+			// Development entry for the JSON <-> MessagePack bridge slice.
+			"BRIDGEDEV" => {
+				engines::bridge::run(&mut out, &mut rng.fork(), thorough);
 			}
 			"C18" => {
 				engines::msgpack::run_size(&mut out, &mut rng.fork(), thorough);
